@@ -29,6 +29,7 @@ type menv struct {
 	cands      map[string]bool
 	seq        int
 	token      util.Uint160
+	reenterH   util.Uint160 // the helper contract that asks for its cheque again from inside the payment callback
 }
 
 type gasMove struct {
@@ -234,6 +235,25 @@ func (m *menv) cheque(payee util.Uint160, amount int64, authorised bool) {
 	b := m.b
 	m.seq++
 	id := []byte(fmt.Sprintf("cheque-%d", m.seq))
+	// now and then the payee is a contract that, while it is being paid, asks for the very same cheque again (same id,
+	// same amount): the decision was taken once and pays once (seeded change C19-11: the ballot dropped only after the
+	// payout). With one stored key every call is a decision of its own, so at least two keys.
+	reenter := false
+	if authorised && !m.notary && len(m.alphabet) >= 2 && amount > 0 && b.Rng.IntN(4) == 0 {
+		if m.reenterH == (util.Uint160{}) && b.Helpers["reenter"] != nil {
+			if d, err := m.w.Deploy("reenter", b.Helpers["reenter"], nil); err == nil {
+				m.reenterH = d.Hash
+			}
+		}
+		if m.reenterH != (util.Uint160{}) {
+			ar := m.w.Invoke([]world.SignerSpec{world.G(m.users[0])}, m.reenterH, "arm", m.nfs, id, amount)
+			b.Tx(1)
+			if ar.Halted() {
+				payee, reenter = m.reenterH, true
+				b.Hit("cheque-payee-asks-for-the-same-cheque-again-while-being-paid")
+			}
+		}
+	}
 	before := m.w.GASOf(payee)
 	bal := m.w.GASOf(m.nfs)
 	var last *world.TxResult
@@ -251,7 +271,7 @@ func (m *menv) cheque(payee util.Uint160, amount int64, authorised bool) {
 			b.Tx(1)
 		} else {
 			// an unrelated decision may be pending while the cheque is voted (the ballot list is shared)
-			if len(m.alphabet) >= 2 && b.Rng.IntN(2) == 0 {
+			if len(m.alphabet) >= 2 && (reenter || b.Rng.IntN(2) == 0) {
 				m.seq++
 				ur := m.w.Invoke([]world.SignerSpec{world.G(world.Single(m.alphabet[b.Rng.IntN(len(m.alphabet))]))}, m.nfs, "setConfig", []byte(fmt.Sprintf("unrelated-%d", m.seq)), []byte("Unrelated"), []byte{1})
 				b.Tx(1)
